@@ -92,13 +92,38 @@ class _Emit(Client):
                     return ((t,), (f,)) if isinstance(op, ast.Eq) else ((f,), (t,))
         return (state,), (state,)
 
+    def _stored_item(self, name: ast.Name, ctx):
+        """the subscript `storage[k]` a local stands for, or None"""
+        fl = getattr(ctx.func.node, "_flow", None)
+        if fl is None:
+            from ..flow import Flow
+            fl = ctx.func.node._flow = Flow(ctx.func.node)
+        ex_ = fl.expand(name)
+        if isinstance(ex_, ast.Subscript) and self._is_storage(ex_.value, ctx):
+            return ex_
+        # for k, v in [sorted(] storage.items() [, ...)]:  v is storage[k]
+        for lp in ast.walk(ctx.func.node):
+            if isinstance(lp, ast.For) and isinstance(lp.target, ast.Tuple) and len(lp.target.elts) == 2 \
+                    and all(isinstance(x, ast.Name) for x in lp.target.elts) and lp.target.elts[1].id == name.id:
+                it_ = lp.iter
+                while isinstance(it_, ast.Call) and src(it_.func) in ("sorted", "list", "tuple") and it_.args:
+                    it_ = it_.args[0]
+                if isinstance(it_, ast.Call) and isinstance(it_.func, ast.Attribute) and it_.func.attr == "items" \
+                        and self._is_storage(it_.func.value, ctx) and any(x is name for x in ast.walk(lp)):
+                    sub = ast.Subscript(value=it_.func.value, slice=ast.Name(id=lp.target.elts[0].id, ctx=ast.Load()), ctx=ast.Load())
+                    return ast.copy_location(sub, name)
+        return None
+
     def _emit(self, value_expr, node, state, ctx):
         pd, pa, guard, isnext, stored = state
         self.emits += 1
         if pd is not None or pa == "cursor":
             self.problems.append((node.lineno, "an item is emitted while the previous emission has not been completed "
                                                "(its key not deleted / the cursor not advanced): double or stale emission"))
-        # what is emitted?
+        # what is emitted?  a local that holds storage[k] (taken by a look-up, or the value half of a walk over storage.items())
+        # reads as storage[k]
+        if isinstance(value_expr, ast.Name):
+            value_expr = self._stored_item(value_expr, ctx) or value_expr
         if isinstance(value_expr, ast.Subscript) and self._is_storage(value_expr.value, ctx):
             k = value_expr.slice
             if self._is_cursor(k, ctx):
@@ -143,6 +168,14 @@ class _Emit(Client):
                 return (state,)
             if node.id == self.value:
                 self.value_rebound = True
+        if kind == "subscript" and isinstance(node, ast.Subscript) and self._is_storage(node.value, ctx) and self._is_cursor(node.slice, ctx):
+            # EAFP: a look-up of storage[cursor] inside `try ... except KeyError` that completes proves the cursor is stored
+            p_ = getattr(node, "_parent", None)
+            while p_ is not None and not isinstance(p_, (ast.FunctionDef, ast.AsyncFunctionDef)):
+                if isinstance(p_, ast.Try) and any(h.type is None or src(h.type).split(".")[-1] in ("KeyError", "LookupError", "Exception")
+                                                   for h in p_.handlers) and any(x is node for b_ in p_.body for x in ast.walk(b_)):
+                    return ((pd, pa, True, isnext, stored),)
+                p_ = getattr(p_, "_parent", None)
         if kind == "yield" and self.emit_kind == "yield":
             return self._emit(node.value, node, state, ctx)
         if kind == "emit":
@@ -401,38 +434,84 @@ def r4_ring(prog, rep: Report):
         d = dotted(r.value) if r.value is not None else None
         if d and len(d) == 2:
             size_field = d[1]
-    body = [st for st in g.node.body if not (isinstance(st, ast.Expr) and isinstance(st.value, ast.Constant))]
-    first = body[0] if body else None
-    if not (isinstance(first, ast.If) and first.body and isinstance(first.body[-1], ast.Raise)):
-        rep.viol("C15.R4", g, "index-guard", "the index is not checked before the slot arithmetic",
-                 scenario="CircularBuffer(3) with one item: b[1] or b[-1] returns a stale/None slot instead of IndexError")
-    else:
-        def term(x):
-            if isinstance(x, ast.Call) and src(x) == f"len({g.self_name})":
-                return env["len"]
-            if dotted(x) == (g.self_name, size_field):
-                return env["len"]
-            if const_value(x) == 0:
-                return env["zero"]
+    # one run of the look-up per ordering of (i, 0, len): where the guard sits (first statement, helper, two guard clauses) does
+    # not matter, only what the method does for that ordering: IndexError exactly when i < 0 or i >= len
+    from ..symenv import SymClient, run_sym
+    from ..paths import strip_versions
+    g0 = prog.resolve(c, "__getitem__")
+    slots_f = _ring_slots_field(prog)
+
+    class _Guard(SymClient):
+        def __init__(s_, env_):
+            super().__init__()
+            s_.w = env_
+            s_.undecided = []
+            s_.slot_reads = 0
+            s_._ver = 0
+
+        def should_inline(s_, func, call, ctx):
+            return func.cls is not None and not func.cls.is_external and func.name != "__init__"
+
+        def refine(s_, test, state, ctx):
+            s_._ver = state[1]
+            return super().refine(test, state, ctx)
+
+        def _val(s_, t):
+            t = strip_versions(t)
+            if t == ("p", i):
+                return s_.w[i]
+            if t == ("c", 0):
+                return s_.w["zero"]
+            if t in (("call", "len", (("self",),)), ("attr", ("self",), size_field), ("mcall", "__len__", ("self",), ())):
+                return s_.w["len"]
             return None
 
-        W = [w for w in weak_orderings([i, "zero", "len"]) if w["zero"] <= w["len"]]
-        bad = []
-        try:
-            for env in W:
-                got = eval_order(first.test, env, term)
-                want = env[i] < env["zero"] or env[i] >= env["len"]
-                if got != want:
-                    bad.append(env)
-            rep.count("orderings_evaluated", len(W))
-            exc = src(first.body[-1].exc.func) if isinstance(first.body[-1].exc, ast.Call) else src(first.body[-1].exc)
-            rep.check("C15.R4", g, "index-guard", not bad and exc == "IndexError",
-                      f"`{src(first.test)}` raises IndexError exactly when i < 0 or i >= len ({len(W)} orderings)",
-                      f"`{src(first.test)}` disagrees with `i < 0 or i >= len` on {bad[:2]} / raises {exc}", witness=bad[:4],
-                      scenario="an index equal to len (or negative) passes the guard and returns a slot that is not one of "
-                               "the last min(k, c) items", line=first.lineno)
-        except NotAFormula as ex:
-            rep.unrec("C15.R4", g, "index-guard", f"guard is not a comparison formula over (i, 0, len): {ex}")
+        def decide(s_, term, node, env, user, ctx):
+            if term[0] == "cmp" and term[1] in ("Lt", "LtE", "Gt", "GtE", "Eq", "NotEq"):
+                a, b = s_._val(term[2]), s_._val(term[3])
+                if a is not None and b is not None:
+                    return {"Lt": a < b, "LtE": a <= b, "Gt": a > b, "GtE": a >= b, "Eq": a == b, "NotEq": a != b}[term[1]]
+            s_.undecided.append(src(node))
+            flagged = s_.pack(env, s_._ver, "undecided")
+            return ((flagged,), (flagged,))
+
+        def on(s_, kind, node, env, ver, user, ctx):
+            if kind == "subscript" and isinstance(node, ast.Subscript):
+                b_ = strip_versions(s_.sym(node.value, env, ver, ctx))
+                if b_ == ("attr", ("self",), slots_f):
+                    s_.slot_reads += 1
+            return None
+    W = [w for w in weak_orderings([i, "zero", "len"]) if w["zero"] <= w["len"]]
+    bad, undecided, unrec_msgs = [], [], []
+    for env_ in W:
+        cl_ = _Guard(env_)
+        it_, ex_ = run_sym(prog, cl_, g0, c)
+        if it_.unrecognised:
+            unrec_msgs += it_.unrecognised
+            continue
+        want_raise = env_[i] < env_["zero"] or env_[i] >= env_["len"]
+        outs = {("raise:" + str(nm), st_[2] == "undecided") for st_, nm in ex_.exc} | \
+               {("return", st_[2] == "undecided") for st_ in ex_.ret | ex_.normal}
+        wrong = [o for o in outs if (o[0] == "raise:IndexError") != want_raise]
+        if wrong and all(u for _, u in wrong):
+            undecided.append((env_, cl_.undecided[:1]))
+        elif wrong:
+            bad.append((env_, sorted(o for o, u in wrong if not u)))
+    rep.count("orderings_evaluated", len(W))
+    if unrec_msgs:
+        rep.unrec("C15.R4", g, "index-guard", "; ".join(sorted(set(unrec_msgs))))
+    elif bad:
+        env_, outs_ = bad[0]
+        rep.viol("C15.R4", g, "index-guard", f"for the ordering {env_} of (index, 0, len) the look-up ends with {outs_} instead of "
+                 f"{'IndexError' if (env_[i] < env_['zero'] or env_[i] >= env_['len']) else 'the item'}: it does not raise IndexError "
+                 "exactly when i < 0 or i >= len", witness=[b[0] for b in bad[:4]],
+                 scenario="an index equal to len (or negative) passes the guard and returns a slot that is not one of "
+                          "the last min(k, c) items; CircularBuffer(3) with one item: b[1] or b[-1] returns a stale/None slot")
+    elif undecided:
+        rep.unrec("C15.R4", g, "index-guard", f"for the ordering {undecided[0][0]} the outcome depends on a test that is not about "
+                  f"(index, 0, len): {undecided[0][1]}")
+    else:
+        rep.ok("C15.R4", g, "index-guard", f"IndexError exactly when i < 0 or i >= len ({len(W)} orderings of index, 0, len; every path)")
     # put
     p = prog.method_view(c, "put")
     rep.fn(p)
@@ -619,8 +698,11 @@ def r5_ring_slots(prog, rep: Report):
     if not reads:
         rep.unrec("C15.R5", g, "read-slot", "no read of the slot array")
         return
+    from ..util import expand_all
+    from ..flow import Flow
+    gflow = Flow(g.node)
     for rd in reads:
-        e = rd.slice
+        e = expand_all(rd.slice, gflow, keep=(idx,))          # named intermediate values (`oldest`, `position`) read as their definitions
         has_mod = isinstance(e, ast.BinOp) and isinstance(e.op, ast.Mod) and is_cap(e.right, g)
         inner = e.left if has_mod else e
         lin = _linear(inner, mk_sym(g, idx))
